@@ -440,10 +440,76 @@ def leaf(rng):
     return {"not": {"type": rng.choice(TYPES[:5])}}
 
 
+def tmpl_float_sizes(rng, opts):
+    """Size keywords written as the floats a serializer of another language emits (2.0 is an integer in
+    Draft 6): they bound lengths exactly like 2."""
+    kind = rng.choice(["string", "array", "object"])
+    low, high = rng.choice([(1.0, 2.0), (2.0, 2.0), (0.0, 1.0), (3.0, 5.0), (2e0, 3e0)])
+    if kind == "string":
+        return {"type": "string", "minLength": low, "maxLength": high}
+    if kind == "array":
+        return {"type": "array", "minItems": low, "maxItems": high, "items": {"type": "integer"}}
+    return {"type": "object", "title": "Sized", "minProperties": low, "maxProperties": high}
+
+
+def tmpl_scale(rng, opts):
+    """The same keywords at sizes no hand-written test uses: dozens to hundreds of properties, branches,
+    enum members, tuple members, same-titled objects (a rule that changes past 9, 10, 32, 64, 100 or 256 of
+    something, or with the ORDER of many members, shows here); values are made by the ordinary solver, whose
+    one-point mutants then hit early, middle and late members alike."""
+    size = rng.choice([11, 12, 33, 65, 101, 130, 257])
+    kind = rng.choice(["properties", "required", "anyOf", "oneOf", "enum", "tuple", "same_titles", "patterns",
+                       "dependencies", "nesting"])
+    names = [f"p{idx:03d}" for idx in range(size)]
+    rng.shuffle(names)
+    if kind == "properties":
+        out = {"type": "object", "title": "Wide", "additionalProperties": rng.choice([False, True]),
+               "properties": {name: leaf(rng) for name in names}}
+        out["required"] = rng.sample(names, k=rng.choice([1, size // 2, size]))
+        return out
+    if kind == "required":
+        return {"required": names, "properties": {names[-1]: {"type": "integer"}}, "maxProperties": size + 1}
+    if kind in ("anyOf", "oneOf"):
+        # (a `number` branch among many: an integer value must reach it whatever its position)
+        branches = [{"const": idx} if idx % 3 else {"type": "integer", "minimum": idx, "maximum": idx}
+                    for idx in range(size)] + [{"type": "string", "maxLength": 2}]
+        branches.insert(rng.randrange(len(branches)), {"type": "number", "minimum": size + 5, "maximum": size + 9})
+        branches.insert(rng.randrange(len(branches)), {"type": "number", "multipleOf": 0.5, "maximum": -1})
+        return {kind: branches}
+    if kind == "enum":
+        return {"enum": [idx if idx % 2 else f"s{idx}" for idx in range(size)] + [[size], {"k": size}]}
+    if kind == "tuple":
+        return {"type": "array", "items": [{"type": "integer", "minimum": idx} for idx in range(min(size, 40))],
+                "additionalItems": rng.choice([False, {"type": "string"}]), "minItems": rng.choice([0, min(size, 40)])}
+    if kind == "same_titles":
+        # many different object schemas under ONE title (numbering runs past one digit)
+        count = min(size, 14)
+        return {"type": "object", "title": "Holder", "properties": {
+            f"m{idx:02d}": {"type": "object", "title": "Item", "properties": {f"f{idx}": {"type": "integer"}},
+                            "required": [f"f{idx}"]} for idx in range(count)}}
+    if kind == "patterns":
+        return {"patternProperties": {f"^k{idx:03d}": ({"type": "integer"} if idx % 2 else {"type": "string"})
+                                      for idx in range(min(size, 60))}, "additionalProperties": False}
+    if kind == "dependencies":
+        return {"dependencies": {name: [names[(idx + 1) % size]] for idx, name in enumerate(names[:40])}}
+    if rng.random() < 0.5:
+        # literals nested far deeper than anything hand-written, differing from a look-alike only at the bottom
+        depth = rng.choice([17, 33, 40])
+        deep = rng.choice([True, False, 1, 0, "x"])
+        for idx in range(depth):
+            deep = [deep] if idx % 2 else {"k": deep}
+        return rng.choice([{"const": deep}, {"enum": [deep, 0]}, {"type": "array", "uniqueItems": True, "items": {"enum": [deep, gv.lookalike(rng, deep), 5]}}])
+    out = {"type": "integer"}
+    for idx in range(rng.choice([6, 9, 12])):
+        out = rng.choice([{"items": out, "type": "array"}, {"properties": {"n": out}, "required": ["n"]},
+                          {"anyOf": [out, {"type": "null"}]}])
+    return out
+
+
 TEMPLATES = [
     tmpl_required_additional, tmpl_pattern_overlap, tmpl_tuple, tmpl_composition_siblings,
     tmpl_typelist_siblings, tmpl_lookalike_literals, tmpl_same_title_objects, tmpl_nested_composition,
-    tmpl_pattern_pairs,
+    tmpl_pattern_pairs, tmpl_scale, tmpl_float_sizes,
 ]
 
 
